@@ -50,7 +50,7 @@ LEVEL = "fault_enumeration"
 RULE = (
     "scenario = model with 1-6 initializers of mixed kinds (in-memory, ExternalTensor backed by the "
     "destination directly / through a symlink alias / through the link target, ExternalTensor backed by "
-    "another file, LazyTensor, TensorProto-backed, two independent TensorProtocol probes) x destination "
+    "another file in the model directory, LazyTensor, TensorProto-backed, two independent TensorProtocol probes) x destination "
     "plain / symlink / read-only / absent x serial or 2-3 workers x size threshold (small external "
     "tensors are loaded first) x callback x data-file object with or without fileno x single file or "
     "sharded next to pre-existing files (with and without a colliding shard name) x data-file name w.data / "
@@ -58,6 +58,10 @@ RULE = (
     "deep x (symlink destinations) the name leads to its regular file directly / through a chain of 2-3 links "
     "in two directories / by an absolute link text / through a symlinked directory / through a text with '..', and "
     "destination-backed tensors read through the first name, the last intermediate link or the file's own name "
+    "x base directories: 0-2 extra ExternalTensors (a fixed quarter of the scenarios has one, written, behind a "
+    "written destination-backed tensor) whose location string equals that of a destination-backed tensor / the "
+    "external_data argument but whose base_dir is another directory holding a different file of that name "
+    "(never a destination: must stay valid with its bytes whatever happens) "
     "x client state: for every external tensor of the model (and for all together) the undisturbed save is "
     "repeated while the caller holds a live array from tensor.numpy() / np.asarray(tensor) - a view of the "
     "tensor's memory map, so release() of that tensor raises BufferError wherever the save calls it. Every LINE event of "
@@ -93,6 +97,7 @@ STORE = "store"            # sub directory holding the symlink target
 TARGET = "store/w.blob"    # where w.data points to in symlink mode
 ALIAS = "alias.data"       # symlink -> w.data in plain / read-only mode
 OTHER = "other.data"       # a second data file that is never a destination
+TWIN = "twin"              # another base directory: holds files with the SAME relative names, never destinations
 MODEL = "m.onnx"
 CHILD_TIMEOUT_S = 60.0
 
@@ -203,6 +208,11 @@ def plan(tier: str) -> dict:
             "exc_judged|strict": 150 if quick else 3000,
             "tensor_checks|valid-and-old-bytes": 150 if quick else 2000,
             "tensor_checks|invalidated-and-replaced": 6 if quick else 80,
+            # base directories: a tensor with the location string of a destination-backed tensor but another
+            # base_dir (another file) stays valid and keeps its bytes
+            "undisturbed_pass|scenarios|external tensor with a destination's location under another base_dir|"
+            "written behind a written destination-backed tensor, single file": 8 if quick else 120,
+            "undisturbed_pass|tensor_checks|valid-and-old-bytes|same location under another base_dir": 100 if quick else 1500,
             "sharded_preexisting_checks": 300 if quick else 3000,
             # every failing setup call (mkdtemp / first open / copymode) is looked at as the first half
             # of a fault pair; the second stage runs whenever the save carries on after it
@@ -318,6 +328,31 @@ def gen_spec(rng, case: int) -> dict:
         big["via"] = "target"
         if _nbytes(big) <= spec["threshold"]:
             spec["threshold"] = 0
+    # (drawn last) base directories: the tensors of a model need not share one base_dir (two models loaded
+    # from their own folders and combined).  An ``ext_twin`` tensor has the SAME location string as a
+    # destination-backed tensor (or as the external_data argument) but another base_dir, where a
+    # different file of that name lives: it is never backed by a destination.  A fixed stratum (every
+    # seed reaches it) puts a written twin behind a written destination-backed tensor of the same location;
+    # elsewhere position, size and count are random.
+    stratum = (case // 2) % 4 == 1
+    if stratum or rng.random() < 0.2:
+        for j in range(1 if rng.random() < 0.7 else 2):
+            dest_backed = [i for i, t in enumerate(tensors) if t["kind"] == "ext_dest"]
+            written = [i for i in dest_backed if _nbytes(tensors[i]) > spec["threshold"]]
+            if stratum and j == 0 and written:
+                i = rng.choice(written)
+                d = tensors[i]
+                twin = {"kind": "ext_twin", "dtype": d["dtype"], "n": d["n"], "via": d.get("via", "direct")}
+                pos = rng.randint(i + 1, len(tensors))
+            else:
+                via = tensors[rng.choice(dest_backed)].get("via", "direct") if dest_backed else "direct"
+                r = rng.random()
+                twin = {"kind": "ext_twin", "dtype": rng.choice(sorted(_DTYPES)),
+                        "n": rng.randint(1, 12) if r < 0.3 else rng.randint(13, 300), "via": via}
+                pos = rng.randint(0, len(tensors))
+            twin["seed"] = rng.getrandbits(32)
+            twin["name"] = f"tw{j}_ext_twin"
+            tensors.insert(pos, twin)
     return spec
 
 
@@ -349,6 +384,35 @@ def _layout_old_files(spec: dict) -> tuple[bytes, bytes, dict]:
         buf += b"\xeeOLD\xee" + rng.randbytes(rng.randint(0, 30))
         blobs[which] = bytes(buf)
     return blobs["ext_dest"], blobs["ext_other"], where
+
+
+def _layout_twins(spec: dict) -> tuple[dict[str, bytes], dict[str, tuple[int, int]]]:
+    """Bytes of the files in the other base directory (one per distinct name the twins read through)
+    and tensor name -> (offset, length).  Own random stream: the layout above is what it was."""
+    import random
+
+    blobs: dict[str, bytes] = {}
+    where: dict[str, tuple[int, int]] = {}
+    twins = [t for t in spec["tensors"] if t["kind"] == "ext_twin"]
+    for via in sorted({t.get("via", "direct") for t in twins}):
+        rng = random.Random(f"twin:{spec['old_seed']}:{via}")
+        buf = bytearray(rng.randbytes(rng.randint(0, 40)))
+        for t in twins:
+            if t.get("via", "direct") != via:
+                continue
+            buf += rng.randbytes(rng.randint(0, 9))
+            where[t["name"]] = (len(buf), _nbytes(t))
+            buf += _payload(t)
+        buf += b"\xeeTWIN\xee" + rng.randbytes(rng.randint(0, 30))
+        blobs[via] = bytes(buf)
+    return blobs, where
+
+
+def location_of(spec: dict, root: str, via: str) -> str:
+    """The location string of a tensor that reads the destination 'via' one of its names."""
+    nm = names(spec)
+    hop = link_layout(spec, root)[1] if spec["mode"] == "symlink" else None
+    return {"direct": nm["dest"], "alias": ALIAS, "target": nm["target"], "hop": hop or nm["dest"]}[via]
 
 
 class Scenario:
@@ -392,6 +456,12 @@ def materialize(spec: dict, root: str) -> Scenario:
             os.chmod(os.path.join(root, dest), 0o444)
     with open(os.path.join(root, OTHER), "wb") as f:
         f.write(old_other)
+    twin_blobs, twin_where = _layout_twins(spec)
+    for via, blob in twin_blobs.items():
+        path = os.path.join(root, TWIN, location_of(spec, root, via))
+        os.makedirs(os.path.dirname(path), exist_ok=True)
+        with open(path, "wb") as f:
+            f.write(blob)
     if spec["sharded"]:
         # stale shards of an earlier layout with another shard count: never destinations
         for name in ("w-00001-of-00009.data", "w-00002-of-00009.data"):
@@ -427,18 +497,26 @@ def materialize(spec: dict, root: str) -> Scenario:
             tensor = F.ProbeTensorToFile(payload, np.dtype(np_dt), shape, ir_dt, name, sc.plan_ref)
         elif kind == "probe_bytes":
             tensor = F.ProbeTensorBytes(payload, np.dtype(np_dt), shape, ir_dt, name, sc.plan_ref)
-        elif kind in ("ext_dest", "ext_other"):
-            _, offset, length = where[name]
-            if kind == "ext_other":
+        elif kind in ("ext_dest", "ext_other", "ext_twin"):
+            base_dir = root
+            if kind == "ext_twin":
+                # same location string as the destination-backed tensors, another base_dir, another file
+                offset, length = twin_where[name]
+                location = location_of(spec, root, t.get("via", "direct"))
+                base_dir = os.path.join(root, TWIN)
+                backing, old = os.path.join(TWIN, location), twin_blobs[t.get("via", "direct")]
+            elif kind == "ext_other":
+                _, offset, length = where[name]
                 location, backing, old = OTHER, OTHER, old_other
             else:
-                via = t.get("via", "direct")
-                hop = link_layout(spec, root)[1] if mode == "symlink" else None
-                location = {"direct": dest, "alias": ALIAS, "target": target, "hop": hop or dest}[via]
+                _, offset, length = where[name]
+                location = location_of(spec, root, t.get("via", "direct"))
                 backing, old = sc.dest_rel, old_dest
-            tensor = ir.ExternalTensor(location, offset, length, ir_dt, shape=shape, name=name, base_dir=root)
+            tensor = ir.ExternalTensor(location, offset, length, ir_dt, shape=shape, name=name, base_dir=base_dir)
             sc.ext.append({
-                "tensor": tensor, "name": name, "backing": backing, "loc": location,
+                # loc: the name (relative to the scenario directory) the tensor itself reads through
+                "tensor": tensor, "name": name, "backing": backing,
+                "loc": backing if kind == "ext_twin" else location,
                 "old": old[offset:offset + length],
                 "role": ("written" if length > spec["threshold"] else "loaded-first"),
                 "kind": kind,
@@ -652,6 +730,8 @@ class Judge:
                 via = next((t.get("via") for t in self.spec["tensors"] if t["name"] == e["name"]), None)
                 arg = (f"[dest=symlink-{shape},tensor-via={via}]"
                        if self.spec["mode"] == "symlink" and shape != "one" and e["kind"] == "ext_dest" else "")
+                if e["kind"] == "ext_twin":
+                    arg = "[tensor=same-location-under-another-base_dir]"
                 self.violate(
                     f"{where}|{fault_tag}|tensor-invalidated-file-not-replaced{arg}",
                     f"external tensor {e['name']} ({tag}) reading {_brief(e.get('loc') or e['backing'])} (regular file: "
@@ -694,6 +774,8 @@ class Judge:
                     replay)
             else:
                 ctx.count("tensor_checks|valid-and-old-bytes")
+                if e["kind"] == "ext_twin":
+                    ctx.count("tensor_checks|valid-and-old-bytes|same location under another base_dir")
 
     def check_preexisting(self, s1: dict, *, where: str, fault_tag: str, replay: dict, skip: set[str]) -> bool:
         """Sharded clause: no pre-existing entry changed.  For single-file saves the entries other than
@@ -1605,6 +1687,11 @@ def run(ctx) -> None:
                            for t in spec["tensors"]):
                         ctx.count("undisturbed_pass|scenarios|symlink|chain of links, single file, "
                                   "written tensor reads the final file by its own name")
+            if any(t["kind"] == "ext_twin" for t in spec["tensors"]):
+                ctx.count("undisturbed_pass|scenarios|external tensor with a destination's location under another base_dir")
+                if _twin_behind_written_dest(spec):
+                    ctx.count("undisturbed_pass|scenarios|external tensor with a destination's location under another "
+                              "base_dir|written behind a written destination-backed tensor, single file")
             report(judge)
         # ---- pass 2: every fault position of as many scenarios as the budget allows --------------
         for case in ctx.case_ids():
@@ -1650,6 +1737,22 @@ def run(ctx) -> None:
     finally:
         shutil.rmtree(base, ignore_errors=True)
     ctx.exhaustive = complete and not ctx.truncated_by_time
+
+
+def _twin_behind_written_dest(spec: dict) -> bool:
+    """Single-file save over an existing file in which a written tensor of another base directory follows a
+    written destination-backed tensor with the same location string."""
+    if spec["sharded"] or spec["mode"] == "absent":
+        return False
+    seen = set()
+    for t in spec["tensors"]:
+        if _nbytes(t) <= spec["threshold"]:
+            continue
+        if t["kind"] == "ext_dest":
+            seen.add(t.get("via", "direct"))
+        elif t["kind"] == "ext_twin" and t.get("via", "direct") in seen:
+            return True
+    return False
 
 
 def _describe_replay(replay: dict) -> str:
